@@ -70,14 +70,16 @@ PROPS["C03"] = {
     "level_note": "Trusted: go/ssa, the executor's encoding, z3; the clock stub (time moves only where the harness moves it). One key, capacity 10, no concurrent writers (interleavings with maintenance are explored only at the blocking points of the calls). Known finding: stale cached clock > 30 s (known_findings.json).",
     "assumptions": ["TTL >= 1 ns (negative TTLs are documented as the caller's problem)", "monotonic clock, uptime < 2^62 ns", "cached clock = some earlier reading C <= W of the true clock (arbitrary staleness)"],
     "outside_bound": ["uptime >= 2^62 ns", "more than one TTL update per key"],
-    "quick": [H("ZZ_C03_Get", reach=["read-done", "hit"], bounds="all 64-bit setAt/ttl/readAt/cachedNow < 2^62"),
+    "quick": [H("ZZ_C03_AfterLoad", params={"BITS": 33, "UFIX": 1}, reach=["read-after-load"], bounds="read right after LoadCache, before the first tick: saved uptime 2^36 ns, TTL / downtime <= 2^33 ns and read delay < 2^29 ns symbolic"),
+              H("ZZ_C03_Get", reach=["read-done", "hit"], bounds="all 64-bit setAt/ttl/readAt/cachedNow < 2^62"),
               H("ZZ_C03_Range", reach=["range-done"]),
               H("ZZ_C03_Reset", reach=["read-done"]),
               H("ZZ_C03_Loading", reach=["read-done"]),
               H("ZZ_C14_HybridLoadingExpiry", reach=["read"], bounds="hybrid loading cache: a value promoted from the secondary tier keeps its deadline"),
               H("ZZ_C15_ReloadAfterSecondaryExpiry", reach=["reloaded"], bounds="hybrid loading Get: an expired copy in the secondary tier is not served"),
               H("ZZ_C14_Expired", reach=["read"], bounds="hybrid Get of a key that lives only in the secondary tier: read time and the instant of the last cached-clock refresh symbolic")],
-    "thorough": [H("ZZ_C14_HybridLoadingExpiry", reach=["read"]), H("ZZ_C03_Get", reach=["read-done", "hit"]), H("ZZ_C03_Range", reach=["range-done"]), H("ZZ_C03_Reset", reach=["read-done"]), H("ZZ_C03_Loading", reach=["read-done"]),
+    "thorough": [H("ZZ_C03_AfterLoad", params={"BITS": 36}, reach=["read-after-load"], timeout_s=1500, bounds="uptime, TTL, downtime <= 2^36 ns symbolic"),
+              H("ZZ_C14_HybridLoadingExpiry", reach=["read"]), H("ZZ_C03_Get", reach=["read-done", "hit"]), H("ZZ_C03_Range", reach=["range-done"]), H("ZZ_C03_Reset", reach=["read-done"]), H("ZZ_C03_Loading", reach=["read-done"]),
                  H("ZZ_C03_Get", reach=["read-done", "hit"], solver="cvc5", bounds="cross-check with cvc5"), H("ZZ_C03_Reset", reach=["read-done"], solver="cvc5", bounds="cross-check with cvc5"),
                  H("ZZ_C03_Loading", reach=["read-done"], solver="cvc5", bounds="cross-check with cvc5")],
 }
@@ -147,14 +149,14 @@ PROPS["C06"] = {
     "title": "successful Set visible, never lost without a reason",
     "technique": "SSA symbolic execution of bounded sequential histories of the real Store API (Set/Get/Delete/Wait/tick, loader) against a reference model + SMT (z3): costs, TTLs and clock advances symbolic",
     "level_text": "Bounded symbolic model checking: every history of N real API calls (Set on two keys, Get, Delete, clock advance, drain, tick) is executed on the real Store with its real maintenance goroutines; costs (including 0 = cost function and values above MaxSize), TTLs and clock advances are symbolic and z3 decides the reference model's predictions (Set result, immediate visibility, no loss and no eviction without capacity pressure, fresh entry after expiry, oversize never admitted) for all their values.",
-    "level_note": "Trusted: go/ssa, executor encoding, z3, the clock/ticker stubs, concrete hash (one fixed mixing function; two keys), one read stripe. MaxSize 3, histories of N=2 (quick) / 3 (thorough) calls; TTL <= 2^29 ns and advances <= 2^30 ns so that entries stay on the finest wheel (C04 covers placement). (The former known finding, a plain Set on an expired, unreclaimed key keeping the passed deadline, has been repaired in the repository.)",
+    "level_note": "Trusted: go/ssa, executor encoding, z3, the clock/ticker stubs, concrete hash (one fixed mixing function; two keys), one read stripe. MaxSize 3, histories of N=3 calls; TTL <= 2^29 ns and advances <= 2^30 ns so that entries stay on the finest wheel (C04 covers placement). (The former known finding, a plain Set on an expired, unreclaimed key keeping the passed deadline, has been repaired in the repository.)",
     "assumptions": ["fresh cached clock before every read (staleness is C03)", "single client thread; maintenance runs at the client's blocking points"],
     "outside_bound": ["histories longer than N", "more than two keys", "MaxSize other than 3", "TTL > 2^29 ns"],
     "quick": [H("ZZ_C02_ArrivalWindow", params={"PRE": 1}, reach=["settled"], bounds="an accepted Set that extends the deadline while the insert event of the key is being expired on arrival is not lost"),
               H("ZZ_C06_PoolStaleUpdate", params={"POOL": 1, "PRE": 1}, reach=["drained", "collected-while-writer-delayed"], bounds="entry pool on, no capacity pressure: a delayed update event of an expired and re-inserted key evicts nothing (update cost 2..9 symbolic)"),
               H("ZZ_C02_PoolStaleUpdate", params={"PRE": 1, "POOL": 1}, reach=["drained"], bounds="entry pool on: same-key reuse guard"),
-              H("ZZ_C06_History", params={"N": 2}, reach=["history-done", "set-true", "set-false"], bounds="N=2 calls, cap 3, doorkeeper off"),
-              H("ZZ_C06_History", params={"N": 2, "DOOR": 1}, reach=["history-done", "set-false"], bounds="N=2 calls, cap 3, doorkeeper on"),
+              H("ZZ_C06_History", params={"N": 3}, reach=["history-done", "set-true", "set-false"], bounds="N=3 calls, cap 3, doorkeeper off; with the notification / accounting / counter ledger"),
+              H("ZZ_C06_History", params={"N": 3, "DOOR": 1}, reach=["history-done", "set-false"], bounds="N=3 calls, cap 3, doorkeeper on"),
               H("ZZ_C06_ExpiredUpdate", reach=["second-set"]),
               H("ZZ_C06_Doorkeeper", reach=["three-sets", "first-sight-rejected"], bounds="arbitrary doorkeeper reset counter and filter contents (inductive state), one key offered three times"),
               H("ZZ_C06_Loader", reach=["loaded"], bounds="loader cost 1..cap+5"),
@@ -261,7 +263,8 @@ PROPS["C02"] = {
     "level_note": _thr_note + "Entry pool off (as the property states) except in ZZ_C02_PoolStaleUpdate. The in-flight bound on unaccounted entries is not asserted as a running monitor; the mechanism behind it (a writer waits on the full queue rather than skipping the accounting) is exercised with a one-slot queue, where a skipped event shows up as an untracked resident entry after the drain.",
     "assumptions": ["MaxSize 2, two keys"],
     "outside_bound": ["bound on unaccounted entries while writes are in flight", "more than 2 clients / 2 ops", "preemption bound above 1"],
-    "quick": [H("ZZ_C02_ArrivalWindow", params={"PRE": 1}, reach=["settled"], bounds="insert event processed after its deadline while a second writer extends the deadline (cost 1..3 symbolic), preemptions 1"),
+    "quick": [H("ZZ_C06_History", params={"N": 2}, reach=["history-done"], bounds="N=2 calls: symbolic sequential histories (Set k1/k2 with symbolic cost and TTL, Get, Delete, clock advance, drain, tick) with the ledger: resident xor notified exactly once, REMOVED iff deleted, overwritten values never notified, accounting and wheel membership after drain, hits+misses = number of Gets"),
+              H("ZZ_C02_ArrivalWindow", params={"PRE": 1}, reach=["settled"], bounds="insert event processed after its deadline while a second writer extends the deadline (cost 1..3 symbolic), preemptions 1"),
               H("ZZ_C06_PoolStaleUpdate", params={"POOL": 1, "PRE": 1}, reach=["drained", "collected-while-writer-delayed"], bounds="entry pool on: delayed update event vs expiry and re-insertion of the key"),
               H("ZZ_C02_Program", params={"PRE": 0}, reach=["drained"], bounds="2 clients x 2 ops, cap 2, preemptions 0, costs symbolic"),
               H("ZZ_C02_Program", params={"PRE": 0, "WQ": 1, "OPS": 1}, reach=["drained"], bounds="one op per client with a write queue of one slot: writers block on the full queue (a writer that skipped the accounting instead would leave an untracked entry)"),
@@ -270,7 +273,8 @@ PROPS["C02"] = {
               H("ZZ_C02_TwoWriters", params={"PRE": 1}, reach=["drained"], bounds="two writers x 2 Sets of one key, symbolic costs, preemptions 1 (an update event may overtake the insert event)"),
               H("ZZ_C02_PoolStaleUpdate", params={"PRE": 1, "POOL": 1}, reach=["drained"], bounds="entry pool on: a delayed update event of a recycled entry, preemptions 1"),
               H("ZZ_C02_WindowCostUpdate", reach=["drained"], bounds="MaxSize 200: cost of a window entry raised (1..10 symbolic) while the main region holds 190..199")],
-    "thorough": [H("ZZ_C02_ArrivalWindow", params={"PRE": 2}, reach=["settled"]),
+    "thorough": [H("ZZ_C06_History", params={"N": 3}, reach=["history-done"]),
+              H("ZZ_C02_ArrivalWindow", params={"PRE": 2}, reach=["settled"]),
               H("ZZ_C06_PoolStaleUpdate", params={"POOL": 1, "PRE": 2, "POOLMODE": 2}, reach=["drained", "collected-while-writer-delayed"]),
               H("ZZ_C02_WindowCostUpdate", reach=["drained"]),
                  H("ZZ_C02_PoolStaleUpdate", params={"PRE": 2, "POOL": 1, "POOLMODE": 2}, reach=["drained"], bounds="entry pool on, adversarial reuse, preemptions 2"),
@@ -287,14 +291,16 @@ PROPS["C05"] = {
     "level_note": _thr_note + "Scenario programs (not arbitrary histories); entry pool off and on.",
     "assumptions": ["scripted overlap scenarios on capacity 1 and 10"],
     "outside_bound": ["arbitrary operation histories", "preemption bound above 1 (thorough 2)"],
-    "quick": [H("ZZ_C05_DeleteVsEvict", params={"PRE": 1}, reach=["drained"]), H("ZZ_C05_DeleteVsEvict", params={"PRE": 1, "POOL": 1}, reach=["drained"]),
+    "quick": [H("ZZ_C06_History", params={"N": 3}, reach=["history-done"], bounds="N=3 calls: symbolic sequential histories (Set k1/k2 with symbolic cost and TTL, Get, Delete, clock advance, drain, tick) with the ledger: resident xor notified exactly once, REMOVED iff deleted, overwritten values never notified, accounting and wheel membership after drain, hits+misses = number of Gets"),
+              H("ZZ_C05_DeleteVsEvict", params={"PRE": 1}, reach=["drained"]), H("ZZ_C05_DeleteVsEvict", params={"PRE": 1, "POOL": 1}, reach=["drained"]),
               H("ZZ_C05_DeleteVsExpire", params={"PRE": 1}, reach=["drained"]), H("ZZ_C05_EvictVsExpire", params={"PRE": 1}, reach=["drained"]),
               H("ZZ_C05_ExpiredOnArrival", reach=["drained", "expired-on-arrival"], bounds="TTL, processing time and cached-clock reading symbolic"),
               H("ZZ_C05_DeleteVsReset", params={"PRE": 1}, reach=["drained"], bounds="Delete racing a Set of the same key (new incarnation), capacity 1"),
               H("ZZ_C05_UpdateVsEvict", params={"PRE": 1}, reach=["drained"], bounds="overwrite of a key racing the eviction of its entry: the listener gets the value that left"),
               H("ZZ_C02_ExpiryWindow", params={"PRE": 1}, reach=["settled"], bounds="deadline extension racing the expiry of the entry, atomic granularity"),
               H("ZZ_C05_Rejected", reach=["drained", "doorkeeper-rejected"])],
-    "thorough": [H("ZZ_C05_UpdateVsEvict", params={"PRE": 2}, reach=["drained"]), H("ZZ_C02_ExpiryWindow", params={"PRE": 2}, reach=["settled"]),
+    "thorough": [H("ZZ_C06_History", params={"N": 3}, reach=["history-done"]), H("ZZ_C06_History", params={"N": 3, "DOOR": 1}, reach=["history-done"]),
+              H("ZZ_C05_UpdateVsEvict", params={"PRE": 2}, reach=["drained"]), H("ZZ_C02_ExpiryWindow", params={"PRE": 2}, reach=["settled"]),
                  H("ZZ_C05_DeleteVsReset", params={"PRE": 2}, reach=["drained"]), H("ZZ_C05_ExpiredOnArrival", reach=["drained", "expired-on-arrival"]), H("ZZ_C05_DeleteVsEvict", params={"PRE": 2}, reach=["drained"]), H("ZZ_C05_DeleteVsEvict", params={"PRE": 2, "POOL": 1}, reach=["drained"]),
                  H("ZZ_C05_DeleteVsExpire", params={"PRE": 2}, reach=["drained"]), H("ZZ_C05_EvictVsExpire", params={"PRE": 2}, reach=["drained"]),
                  H("ZZ_C05_Rejected", reach=["drained", "doorkeeper-rejected"])],
@@ -307,13 +313,15 @@ PROPS["C08"] = {
     "level_note": _thr_note + "One stripe; 2 threads at atomic granularity, <=3 Adds each, preemption bound 2 (thorough 3).",
     "assumptions": ["Clear() (test-only) not exercised"],
     "outside_bound": ["more than 2 concurrent readers at atomic granularity", "preemption bound above 3"],
-    "quick": [H("ZZ_C08_LateFree", reach=["late-free-done"]), H("ZZ_C08_Atomic", params={"N0": 14, "ADDS": 1, "PRE": 2}, reach=["burst-over"]),
+    "quick": [H("ZZ_C08_StoreOnce", reach=["both-readers-done"], bounds="Store level, four keys: a batch held behind the policy lock while a second reader fills the same stripe; per-key read credit never exceeds the reads"),
+              H("ZZ_C08_LateFree", reach=["late-free-done"]), H("ZZ_C08_Atomic", params={"N0": 14, "ADDS": 1, "PRE": 2}, reach=["burst-over"]),
               H("ZZ_C08_Atomic", params={"N0": 15, "ADDS": 1, "PRE": 2}, reach=["burst-over"]),
               H("ZZ_C08_AtomicLate", params={"J": 15, "ADDS": 2, "PRE": 2}, reach=["burst-over"]),
               H("ZZ_C08_StaleView", params={"N0": 0, "YADDS": 20, "PRE": 1}, reach=["burst-over"], bounds="one reader preempted anywhere inside Add while another performs 20 Adds"),
               H("ZZ_C08_StaleView", params={"N0": 7, "YADDS": 30, "PRE": 1}, reach=["burst-over"]),
               H("ZZ_C08_Store", reach=["stall-over"])],
-    "thorough": [H("ZZ_C08_StaleView", params={"N0": 0, "YADDS": 20, "PRE": 1}, reach=["burst-over"]), H("ZZ_C08_StaleView", params={"N0": 7, "YADDS": 30, "PRE": 1}, reach=["burst-over"]),
+    "thorough": [H("ZZ_C08_StoreOnce", reach=["both-readers-done"]),
+              H("ZZ_C08_StaleView", params={"N0": 0, "YADDS": 20, "PRE": 1}, reach=["burst-over"]), H("ZZ_C08_StaleView", params={"N0": 7, "YADDS": 30, "PRE": 1}, reach=["burst-over"]),
                  H("ZZ_C08_StaleView", params={"N0": 0, "YADDS": 18, "PRE": 2}, reach=["burst-over"]), H("ZZ_C08_LateFree", reach=["late-free-done"]), H("ZZ_C08_Atomic", params={"N0": 14, "ADDS": 2, "PRE": 3}, reach=["burst-over"]),
                  H("ZZ_C08_Atomic", params={"N0": 15, "ADDS": 2, "PRE": 2}, reach=["burst-over"]),
                  H("ZZ_C08_AtomicLate", params={"J": 15, "ADDS": 2, "PRE": 3}, reach=["burst-over"]),
@@ -347,11 +355,13 @@ PROPS["C16"] = {
     "level_note": _thr_note + "Counts are asserted per call (single client) plus the counter's atomicity; concurrent whole-history counting follows from those two, it is not explored as one program.",
     "assumptions": ["hybrid Get is outside the property (stats are in-memory only)"],
     "outside_bound": ["more than 2 concurrent counter updates"],
-    "quick": [H("ZZ_C03_Range", reach=["range-done"], bounds="Range at an arbitrary instant (set time, TTL, read time symbolic, cached clock not refreshed): visits exactly the unexpired keys, once"),
+    "quick": [H("ZZ_C06_History", params={"N": 2}, reach=["history-done"], bounds="N=2 calls: symbolic sequential histories (Set k1/k2 with symbolic cost and TTL, Get, Delete, clock advance, drain, tick) with the ledger: resident xor notified exactly once, REMOVED iff deleted, overwritten values never notified, accounting and wheel membership after drain, hits+misses = number of Gets"),
+              H("ZZ_C03_Range", reach=["range-done"], bounds="Range at an arbitrary instant (set time, TTL, read time symbolic, cached clock not refreshed): visits exactly the unexpired keys, once"),
               H("ZZ_C16_GetCounts", reach=["get-done"]), H("ZZ_C16_GetCounts", params={"LOADING": 1}, reach=["get-done"]),
               H("ZZ_C16_Counter", params={"PRE": 2}, reach=["adds-done"]), H("ZZ_C16_Views", reach=["views-done"]),
               H("ZZ_C04_LateUpdate", reach=["three-ticks"], bounds="EstimatedSize after a cost and TTL update that is applied after its deadline")],
-    "thorough": [H("ZZ_C03_Range", reach=["range-done"]),
+    "thorough": [H("ZZ_C06_History", params={"N": 3}, reach=["history-done"]),
+              H("ZZ_C03_Range", reach=["range-done"]),
               H("ZZ_C16_GetCounts", reach=["get-done"]), H("ZZ_C16_GetCounts", params={"LOADING": 1}, reach=["get-done"]),
                  H("ZZ_C16_Counter", params={"PRE": 4, "POOLMODE": 2}, reach=["adds-done"]), H("ZZ_C16_Views", params={"N": 5}, reach=["views-done"])],
 }
@@ -365,7 +375,8 @@ PROPS["C11"] = {
     "level_note": "Trusted: go/ssa, executor encoding, z3. " + _gob_note + "Source caches: 4-16 entries, unit or symbolic costs 1..3, optionally after two sample periods of the real hill climber or with the protected region above its size.",
     "assumptions": ["gob round-trips the values it is given (its contract, and the README's precondition on key/value types)", "N=4 entries, capacity 10"],
     "outside_bound": ["gob byte layout and 4 MiB thresholds as byte counts", "more than 4 entries", "arbitrary adaptive-split states (only those reached by the fill script)"],
-    "quick": [H("ZZ_C11_RoundTrip", params={"SPLIT": 1, "COSTS": 1, "CAP2": 4}, reach=["loaded"], bounds="smaller target, symbolic costs, regions split over several blocks at arbitrary points"),
+    "quick": [H("ZZ_C03_AfterLoad", params={"BITS": 33, "UFIX": 1}, reach=["read-after-load"], bounds="restored deadlines are judged against the adopted clock origin at once"),
+              H("ZZ_C11_RoundTrip", params={"SPLIT": 1, "COSTS": 1, "CAP2": 4}, reach=["loaded"], bounds="smaller target, symbolic costs, regions split over several blocks at arbitrary points"),
               H("ZZ_C11_RoundTrip", reach=["loaded"], bounds="4 entries, cap 10, same size, advance <= 2^31 ns symbolic"),
               H("ZZ_C11_RoundTrip", params={"COSTS": 1}, reach=["loaded"], bounds="symbolic costs 1..3"),
               H("ZZ_C11_RoundTrip", params={"CAP2": 2}, reach=["loaded"], bounds="smaller target (unit costs)"),
